@@ -63,6 +63,34 @@ pub fn run(ctx: &Ctx) -> Report {
     }
     let st = explore(&ctx.pool, jobs, j);
     rep.part("empty / one-byte / emulated-reflink / --no-progress files", st, serde_json::json!({"d": if ctx.quick() { 1 } else { 2 }}));
+    // --fsync must not depend on which metadata is transferred
+    let mut jobs = vec![];
+    for d in drivers() {
+        for np in [false, true] {
+            for nt in [false, true] {
+                for own in [false, true] {
+                    let mut s = sets::tiny(d);
+                    s.args.insert(0, "--fsync".into());
+                    if np {
+                        s.args.insert(0, "--no-perms".into());
+                    }
+                    if nt {
+                        s.args.insert(0, "--no-timestamps".into());
+                    }
+                    if own {
+                        s.args.insert(0, "--ownership".into());
+                    }
+                    s.name = format!("fsync-flags-{}{}{}-{}", np as u8, nt as u8, own as u8, d);
+                    let s = Arc::new(s);
+                    for b in base_specs() {
+                        jobs.push((s.clone(), b, 1usize));
+                    }
+                }
+            }
+        }
+    }
+    let st = explore(&ctx.pool, jobs, j);
+    rep.part("--fsync x {--no-perms, --no-timestamps, --ownership} product", st, serde_json::json!({"d": 1}));
     rep.assumptions = vec![
         "fsync/fdatasync calls are recorded by the supervisor and answered 0 without reaching the disk (durability itself is the kernel's business)".into(),
         "pre-emption only at visible system calls and hook markers".into(),
